@@ -2343,7 +2343,9 @@ ADFI_check_4_child_name( file_index, &parent, child_name, &found,
                          &sub_node_entry_location, &sub_node_entry, error_return ) ;
 CHECK_ADF_ABORT( *error_return ) ;
 
-if( found == 0 ) { /* child not found */
+if( (found == 0) ||  /* child not found, or another node of that name */
+    (sub_node_entry.child_location.block != child.block) ||
+    (sub_node_entry.child_location.offset != child.offset) ) {
    *error_return = CHILD_NOT_OF_GIVEN_PARENT ;
    CHECK_ADF_ABORT( *error_return ) ;
    } /* end if */
